@@ -115,7 +115,7 @@ func runC09(c *Ctx, r *Report) {
 	}, "the loader carries on with the zero value of the failed step (a nil manifest, an undecoded block) and builds a log from it", deliberateDiscards)
 	{
 		nret := 0
-		for _, t := range []struct{ pkg, recv, name string }{{"entry", "", "FromMultihashWithIO"}, {"entry", "Fetcher", "fetchEntry"}} {
+		for _, t := range []struct{ pkg, recv, name string }{{"entry", "", "FromMultihashWithIO"}, {"entry", "Fetcher", "fetchEntry"}, {"io/cbor", "IOCbor", "DecodeRawEntry"}, {"io/pb", "pb", "DecodeRawEntry"}} {
 			fn := p.FuncOpt(t.pkg, t.recv, t.name)
 			if fn == nil {
 				continue // the thin wrapper may have been folded into its caller
